@@ -17,7 +17,7 @@ open Carquet.Impl.Reader hiding Bytes
 
 /-- the `Info` `build_schema` sees for an element of the written schema -/
 def normI (i : Schema.Info) : Schema.Info :=
-  ⟨nameOf (some (ThriftParquet.cstr (strBytes i.name))), i.rep, i.ptype, i.typeLength, none⟩
+  ⟨nameOf (some (ThriftParquet.cstr (strBytes i.name))), i.rep, i.ptype, i.typeLength, none, none⟩
 
 def normE (e : Schema.Element) : Schema.Element := ⟨normI e.info, e.numChildren⟩
 
@@ -27,7 +27,7 @@ theorem repOf_repCode (r : Option Schema.Rep) : Reader.repOf (r.map repCode) = r
   | some r => cases r <;> rfl
 
 theorem toElement_implSE (e : Schema.Element) : toElement (implSE e) = normE e := by
-  obtain ⟨⟨name, rep, ptype, tl, lg⟩, nc⟩ := e
+  obtain ⟨⟨name, rep, ptype, tl, lg, lt⟩, nc⟩ := e
   simp only [toElement, implSE, normE, normI, repOf_repCode]
   cases ptype <;> simp
 
